@@ -821,7 +821,7 @@ def r10_4(ctx):
     ctx.ob("cap-tests-found", n >= 1, site(trial), f"{n} comparison(s) with the cap constant {sorted(set(caps))}")
 
 
-@rule("R10.2", 8, "collection-marker tables agree: MessagePack trial accepts exactly rmp's array/map markers; YAML trial accepts exactly sequence/mapping roots", ["C10"])
+@rule("R10.2", 5, "collection-marker tables agree: MessagePack trial accepts exactly rmp's array/map markers; YAML trial accepts exactly sequence/mapping roots", ["C10"])
 def r10_2(ctx):
     lib = ctx.lib
     trials = common.trial_functions(ctx.facts)
@@ -855,9 +855,35 @@ def r10_2(ctx):
                         x = x[2]
                     if x[0] == "path" and x[1].startswith("rmp::Marker"):
                         got.add(tables.short(x[1]))
-    ctx.ob("msgpack:marker-table-found", found, site(mp), "first-byte filter over rmp::Marker found")
-    for nm in sorted(want | got):
-        ctx.ob(f"msgpack:marker:{nm}", (nm in want) == (nm in got), site(mp), f"rmp collection marker: {nm in want}; accepted by the trial: {nm in got}")
+    if not found:
+        # the gate may test the raw first byte instead of decoding it (`matches!(b, 0x80..=0x9f | 0xdc..=0xdf)`,
+        # possibly in a bool helper): the set of byte values with which the parser is reached, by interval analysis
+        import ival
+
+        RMP_COLLECTION_BYTES = ((0x80, 0x9F), (0xDC, 0xDF))  # fixmap, fixarray | array16, array32, map16, map32 (rmp 0.8 Marker::from_u8)
+        iv = ival.for_body(mp)
+        sets = set()
+        for bb, t in mp.calls():
+            f = fn_of(t) or {}
+            callee = lib.by_id.get(f.get("resolved") or f.get("def"))
+            if callee is None or not f.get("local"):
+                continue
+            if not any((fn_of(tt) or {}).get("crate") in ("rmp_serde", "serde") for _, _, tt in Super(lib, callee, depth=2).calls()):
+                continue
+            st = iv.entry.get(bb)
+            if st is None:
+                continue
+            for l, v in st.items():
+                if isinstance(l, int) and mp.local_ty(l) == "u8" and v is not None and v != ((0, 255),):
+                    sets.add(v)
+        ok_b = sets == {RMP_COLLECTION_BYTES}
+        shown = [" ∪ ".join(f"[{lo:#x}, {hi:#x}]" for lo, hi in v) for v in sorted(sets)]
+        ctx.ob("msgpack:marker-table-found", bool(sets), site(mp), "first-byte filter over the raw marker byte found" if sets else "no first-byte filter found in the MessagePack trial")
+        ctx.ob("msgpack:marker-bytes", ok_b, site(mp), f"the parser is reached exactly for first bytes {shown} (rmp's array and map markers)" if ok_b else f"the parser is reached for first bytes {shown}, rmp's array and map markers are [0x80, 0x9f] ∪ [0xdc, 0xdf]")
+    else:
+        ctx.ob("msgpack:marker-table-found", found, site(mp), "first-byte filter over rmp::Marker found")
+        for nm in sorted(want | got):
+            ctx.ob(f"msgpack:marker:{nm}", (nm in want) == (nm in got), site(mp), f"rmp collection marker: {nm in want}; accepted by the trial: {nm in got}")
     # the filter's false edge answers Ok(false) without parsing; true edge parses
     # YAML: document kind table in the chunker
     cn = common.chunker(ctx.facts)["loop"]
